@@ -1908,17 +1908,22 @@ def c15_sites(repo_root, tier):
         calls = [c for c in _calls(eff) if isinstance(c.func, ast.Attribute) and c.func.attr == "message"]
         args = sorted(tuple(ast.unparse(a) for a in c.args) for c in calls)
         rec = [c for c in _calls(eff) if isinstance(c.func, ast.Name) and c.func.id == "_extract_from_filters"]
-        ok = (args == [("expression.alternative", "first_filter", "lineno"), ("expression.left", "first_filter", "lineno")]
+        ok = (args == [("branch", "tail_filter", "lineno"), ("expression.alternative", "first_filter", "lineno"), ("expression.left", "first_filter", "lineno")]
               and len(rec) == 1 and [ast.unparse(a) for a in rec[0].args] == ["environment", "expression.left", "lineno", "keywords"]
               and all(ast.unparse(n.value) == "expression.filters[0]" for n in ast.walk(eff) if isinstance(n, ast.Assign) and ast.unparse(n.targets[0]) == "first_filter"))
         # no condition other than the documented ones guards the call
         tests = sorted({ast.unparse(n.test) for n in ast.walk(eff) if isinstance(n, ast.If)})
         allowed = {"isinstance(expression, FilteredExpression) and expression.filters", "first_filter.name in keywords", "isinstance(filter_callable, TranslatableFilter)",
-                   "isinstance(expression, TernaryFilteredExpression)", "expression.filters and expression.alternative"}
+                   "isinstance(expression, TernaryFilteredExpression)", "expression.filters and expression.alternative",
+                   # the tail filter (`a if c else b || t`) is the first filter of every branch that has no filter of its own
+                   "expression.tail_filters", "tail_filter.name in keywords", "not expression.left.filters", "expression.alternative and (not expression.filters)"}
+        src_e = ast.unparse(eff)
+        ok = ok and "tail_filter = expression.tail_filters[0]" in src_e and "branches.append(expression.left.left)" in src_e and "branches.append(expression.alternative)" in src_e \
+            and "for branch in branches:" in src_e
         walrus = {t for t in tests if t.startswith("(message := filter_callable.message(") or t.startswith("message := filter_callable.message(")}
         ok = ok and (set(tests) - walrus) <= allowed
     _ob(obs, "liquid2.messages:_extract_from_filters/site.first-filter-on-literal-operand", ok,
-        "message() is asked about (left, filters[0]) of a filtered expression and (alternative, filters[0]) of a ternary, the ternary's left branch is recursed into, and only the documented guards apply")
+        "message() is asked about (left, filters[0]) of a filtered expression, (alternative, filters[0]) of a ternary and (branch, tail_filters[0]) for each branch without filters of its own; the ternary's left branch is recursed into; only the documented guards apply")
     # translator comments: attached to the next message only
     ok = False
     if visit is not None and vexp is not None:
@@ -2392,6 +2397,21 @@ def c06_sites(repo_root, tier):
 
 
 # --------------------------------------------------------------------------- C17 (bounded native probe of error positions)
+@register("C15")
+def c15_catalog_entry_point(repo_root, tier):
+    """Extraction never fails on a template that parses - also through the catalog-building entry point with a custom keywords
+    mapping: the argument spec of a message is looked up by its standard *gettext name with a fallback, never by keywords[name]."""
+    repo = Repo(repo_root)
+    obs = []
+    m = repo.module("liquid2.messages")
+    fn = m.find("extract_from_templates") if m else None
+    bad = [ast.unparse(n) for n in ast.walk(fn) if isinstance(n, ast.Subscript) and isinstance(n.ctx, ast.Load) and ast.unparse(n.value) == "keywords"] if fn is not None else ["not found"]
+    _ob(obs, "liquid2.messages:extract_from_templates/site.spec-lookup-total", not bad,
+        "the argument spec is looked up with .get() and falls back to the default spec" if not bad
+        else f"`{bad[0]}`: a keywords mapping that names the filters (`t`) but not the standard function names raises KeyError")
+    return {"obligations": obs, "samples": [], "trusted": [], "functions": [], "assumptions": []}
+
+
 @register("C17")
 def c17_error_tokens(repo_root, tier):
     """A raised error refers to the construct it describes: when the message of a syntax error quotes a token (its kind, text or
